@@ -23,6 +23,7 @@ MODULES = [
     ("LexRules", "gen_lexrules"),
     ("StreamTables", "gen_streamtables"),
     ("TokFmtTable", "gen_tokfmt"),
+    ("Reps", "gen_reps"),
     ("Filters", "gen_filters"),
     ("Blocks", "gen_blocks"),
     ("Facts", "gen_facts"),
